@@ -89,16 +89,17 @@ PROPS["C02"] = {
 PROPS["C04"] = {
     "level": "fault_enumeration",
     "technique": "generated histories and crash images (rapid + crash-point enumeration) judged by a structural checker (fsck) over the logical disk, built on the repository's own decoders",
-    "level_text": "fsck (pointers in the data region, single ownership incl. indirect blocks and half-freed inodes, owned => marked, inode bitmap <=> kind, tree with exactly one name per live object, unique well-formed names, '.'/'..', sizes vs mapped blocks, allocators = bitmaps) runs (a) at every 8th step and at the end of generated sequential histories with deep trees, renames, removes, truncations, clean restarts and shrinker-interrupting stops, (b) on the recovered logical disk of every explored crash image of generated programs that create, truncate and remove files large enough for multi-transaction frees, (c) on nearly-full disks, (d) on disks with two and three block-bitmap blocks (33468-66436 blocks): files are written until allocation is well inside the later bitmap blocks, some are removed, the server restarts (cleanly or with the shrinker interrupted; the allocators are rebuilt from all bitmap blocks), more files are written; fsck (exact, allocators = bitmaps) and the bytes of every file are checked after every round.",
+    "level_text": "fsck (pointers in the data region, single ownership incl. indirect blocks and half-freed inodes, owned => marked, inode bitmap <=> kind, tree with exactly one name per live object, unique well-formed names, '.'/'..', sizes vs mapped blocks, allocators = bitmaps) runs (a) at every 8th step and at the end of generated sequential histories with deep trees, renames, removes, truncations, clean restarts and shrinker-interrupting stops, (b) on the recovered logical disk of every explored crash image of generated programs that create, truncate and remove files large enough for multi-transaction frees, (c) on nearly-full disks, (d) on disks with two and three block-bitmap blocks (33468-66436 blocks): files are written until allocation is well inside the later bitmap blocks, some are removed, the server restarts (cleanly or with the shrinker interrupted; the allocators are rebuilt from all bitmap blocks), more files are written; fsck (exact, allocators = bitmaps) and the bytes of every file are checked after every round. (e) at the quiescent point after each enumerated two-client case of the C03 check (one request held at each of its first lock/commit points while another client completes one or two conflicting requests on the same names, children numbered below their directory, half-freed start states, files used through their handles while their names change; quick: a seed-dependent quarter, thorough: all).",
     "level_note": "Sampled histories; crash points enumerated per trace (quick <=250, thorough all). The checker reads through the server's own journal object; it trusts super/inode/dirent decoders of the repository (format changes made consistently raise no alarm). Reply mismatches are C02's subject and only cut the case short here.",
     "rule": ("unit = one fsck run (quiescent state of a sequential history, or recovered crash image). Non-trivial: the state has >=3 directories and >=1 indirect block, or the crash image contains a half-freed inode. "
              "distinct = FNV hash of the history (sequential) or of (program, crash point, variant)."),
     "assumptions": CRASH_ASSUMPTIONS,
-    "required_classes": ["big_disk_case_allocating_beyond_the_first_bitmap_block", "quiescent_states_checked", "crash_images", "crash_images_with_half_freed_inode", "programs_ending_with_the_free_of_a_dense_file"],
+    "required_classes": ["enumerated_two_client_cases_checked", "big_disk_case_allocating_beyond_the_first_bitmap_block", "quiescent_states_checked", "crash_images", "crash_images_with_half_freed_inode", "programs_ending_with_the_free_of_a_dense_file"],
     "units": [
         {"test": "^TestC04Seq$", "quick": {"checks": 60, "shards": 4}, "thorough": {"checks": 800, "shards": 8, "steps": 60}},
         {"test": "^TestC04BigDisk$", "quick": {"checks": 4, "shards": 4}, "thorough": {"checks": 60, "shards": 8}},
         {"test": "^TestC04Full$", "quick": {"checks": 40, "shards": 4, "steps": 40}, "thorough": {"checks": 500, "shards": 8, "steps": 60}},
+        {"test": "^TestC04Enum$", "norapid": True, "quick": {"shards": 16}, "thorough": {"shards": 16, "timeout": 3600}},
         {"test": "^TestC04Crash$", "quick": {"checks": 5, "shards": 2, "procs": 5, "timeout": 600},
          "thorough": {"checks": 24, "shards": 4, "procs": 4, "timeout": 7200}},
     ],
